@@ -321,6 +321,18 @@ def generate(src):
         if params or [t for t in toks[bo + 1:bc]] != [('id', helper), ('p', '('), ('id', 'self'), ('p', ')')]:
             err('%s::flush is not `%s(self)`' % (what, helper))
         sig, bo, bc = find_fn(toks, 0, len(toks), helper, 'top level')
+        # The model's backends are unbuffered, so `backend.flush()?` translates to nothing -- which would
+        # make its removal (or `let _ = backend.flush();`, which swallows the error) invisible.  `BitWrite::flush`
+        # promises to flush the backend, so require the call: exactly one top-level statement
+        # `<receiver>.backend.flush()?;` in the helper's body.
+        hb = Parser(toks[bo:bc + 1], helper).block()
+        nflush = 0
+        for st in hb:
+            if (st[0] == 'expr' and st[1][0] == 'try' and st[1][1][0] == 'mcall' and st[1][1][2] == 'flush'
+                    and not st[1][1][3] and st[1][1][1][0] == 'fld' and st[1][1][1][2] == 'backend'):
+                nflush += 1
+        if nflush != 1:
+            err('fn %s: expected exactly one top-level `backend.flush()?;`, found %d' % (helper, nflush))
         defs.append(translate_fn(toks, sig, bo, bc, 'fn %s (called by %s::flush)' % (helper, what), endian, helper, []))
         # copy_from (after write_bits, which it calls)
         # compiled unless the feature `no_copy_impls` is on (then the trait's generic default is used)
